@@ -296,14 +296,16 @@ theorem checkCapability_cache_free {st : St} (hr : Reachable st) (h cap : Str) (
 (`IrcUser.checkPassword`), a parameter.  The ghost log records every `identify` whose password
 test succeeded. -/
 
-/-- the states the bot reaches through the User plugin from a database without accounts -/
+/-- the states the bot reaches through the User plugin from a database without accounts: every
+command is processed as the live bot does (`pstepA`: the sender is remembered, the bot's own
+lookups of the sender run before and after, for any numbers of them) -/
 def PReachable (pwOk : Str → Str → Bool) (pst : PSt) : Prop :=
-  ∃ (db : Db) (cs : List Cmd), db.users = [] ∧ pst = prun pwOk { st := { db := db } } cs
+  ∃ (db : Db) (amb : Ambient) (cs : List Cmd), db.users = [] ∧ pst = prunA amb pwOk { st := { db := db } } cs
 
 theorem preachable_pinv {pwOk : Str → Str → Bool} {pst : PSt} (hr : PReachable pwOk pst) :
     PInv pwOk pst := by
-  obtain ⟨db, cs, hdb, e⟩ := hr
-  rw [e]; exact prun_pinv (pinit pwOk db hdb) cs
+  obtain ⟨db, amb, cs, hdb, e⟩ := hr
+  rw [e]; exact prunA_pinv amb (pinit pwOk db hdb) cs
 
 /-- **No dictionary operation but `identify` creates a login** (`step_auth`, Lemmas) and **the
 plugin runs `identify` only for `identify <name> <password>` from that exact sender after the
